@@ -15,6 +15,7 @@ from .. import gen
 from ..ref import midi1
 
 ID = 'C01'
+ANCHORS = ['mido.messages.encode', 'mido.messages.decode', 'mido.messages.specs', 'mido.messages.messages']
 LEVEL = 'exploration'
 RULE = ('phase A enumerates every (type, attribute values) of the 17 non-sysex '
         'types once (1 331 463 messages, partitioned over shards, distinct by '
